@@ -20,7 +20,7 @@ From GP Require Import Gen.Inventories Model.Symtable Model.MapOrder Proofs.Symt
 Open Scope string_scope.
 
 (* ---- (1) map iteration: the audited loops, verbatim, each with the model that covers it *)
-Inductive loop_model := MSetUpdate | MCells | MUpdate1 | MUpdate2 | MAnalyzeBlock | MFind | MInvert.
+Inductive loop_model := MSetUpdate | MCells | MUpdate1 | MUpdate2 | MKeysSorted | MFind | MInvert.
 
 (* (package, function, loop text, required text right after the loop, model) *)
 Definition audited_loops : list (string * string * string * string * loop_model) := [
@@ -30,7 +30,7 @@ Definition audited_loops : list (string * string * string * string * loop_model)
   ("symtable", "AnalyzeCells", "for name, scope := range scopes { if scope != ScopeLocal { continue } if !free.Contains(name) { continue } scopes[name] = ScopeCell free.Discard(name) }", "", MCells);
   ("symtable", "Symbols.Update", "for name, symbol := range symbols { symbol.Scope = scopes[name] symbols[name] = symbol }", "", MUpdate1);
   ("symtable", "Symbols.Update", "for name := range free { if symbol, ok := symbols[name]; ok { if classflag && (symbol.Flags&(DefBound|DefGlobal)) != 0 { symbol.Flags |= DefFreeClass symbols[name] = symbol } continue } if !bound.Contains(name) { continue } symbols[name] = Symbol{ Scope: ScopeFree, } }", "", MUpdate2);
-  ("symtable", "SymTable.AnalyzeBlock", "for name, v := range st.Symbols { st.AnalyzeName(scopes, name, v, bound, local, free, global) }", "", MAnalyzeBlock);
+  ("symtable", "SymTable.AnalyzeBlock", "for name := range st.Symbols { names = append(names, name) }", "sort.Strings(names)", MKeysSorted);
   ("symtable", "SymTable.Find", "for name, v := range st.Symbols { if v.Scope == scopeType || (v.Flags&flag) != 0 { out = append(out, name) } }", "sort.Strings(out) ; return out", MFind)
 ].
 
@@ -51,6 +51,11 @@ Theorem C18_update1 : forall scopes sy l l', Permutation l l' -> feq (update1 sc
 Proof. exact update1_order_independent. Qed.
 Theorem C18_update2 : forall cf bound sy l l', Permutation l l' -> feq (update2 cf bound sy l) (update2 cf bound sy l').
 Proof. exact update2_order_independent. Qed.
+(* AnalyzeBlock visits the names in sorted order (the map is only read to collect its keys): the first rejected
+   declaration, which the error message names, does not depend on map order either.  (Before the repair the loop
+   ranged over the map itself: the verdict was order-independent -- next theorem -- but the NAME in the message was not.) *)
+Theorem C18_sorted_keys : forall l l', Permutation l l' -> sorted_keys l = sorted_keys l'.
+Proof. exact sorted_keys_order_independent. Qed.
 Theorem C18_analyze_block : forall bn ne syms syms', Permutation syms syms' -> NoDup (map fst syms) ->
   forall b, beq (analyze_block bn ne b syms) (analyze_block bn ne b syms').
 Proof. exact analyze_block_order_independent. Qed.
@@ -105,6 +110,7 @@ Print Assumptions C18_analyze_cells.
 Print Assumptions C18_update1.
 Print Assumptions C18_update2.
 Print Assumptions C18_analyze_block.
+Print Assumptions C18_sorted_keys.
 Print Assumptions C18_find.
 Print Assumptions C18_invert.
 Print Assumptions C18_token_values_distinct.
